@@ -1932,12 +1932,14 @@ func c05Corpus() []c05Case {
 
 	return []c05Case{
 		base(),
-		// C05-F1: exp <= 0 never expires
+		// C05-F3 (open): exp equal to the Unix time of Go's zero time.Time still counts as absent
+		with(func(c *c05Case) { c.Tok.Exp = c05Date{Kind: "abs", V: -62135596800} }),
+		// C05-F1 (repaired by a3a89b7): exp <= 0 never expired
 		with(func(c *c05Case) { c.Tok.Exp = c05Date{Kind: "abs", V: -1} }),
 		with(func(c *c05Case) { c.Tok.Exp = c05Date{Kind: "abs", V: 0} }),
 		with(func(c *c05Case) { c.Tok.Exp = c05Date{Kind: "abs", V: 0, Frac: true} }),
 		with(func(c *c05Case) { c.Tok.Exp = c05Date{Kind: "abs", V: 1} }),
-		// C05-F2: nbf / iat beyond int64 wrap to "not set"
+		// C05-F2 (repaired by f16c3cc): nbf / iat beyond int64 wrapped to "not set"
 		with(func(c *c05Case) { c.Tok.Nbf = c05Date{Kind: "big", Big: "1e19"} }),
 		with(func(c *c05Case) { c.Tok.Iat = c05Date{Kind: "big", Big: "9223372036854775808"} }),
 		with(func(c *c05Case) { c.Tok.Exp = c05Date{Kind: "big", Big: "1e19"} }),
